@@ -393,6 +393,28 @@ func pgLivenessPrograms() []string {
 	return progs
 }
 
+// main with unsized arguments (sizes come from the inputs)
+var pgUnsizedTemplates = []string{
+	`package main
+func main(a []byte, b []byte) ([]byte, byte, int32) {
+	var s byte
+	for i := 0; i < len(a); i++ {
+		s = s + a[i]
+	}
+	var t byte
+	for i := 0; i < len(b); i++ {
+		t = t ^ b[i]
+	}
+	return b, s + t, int32(len(a)) - int32(len(b))
+}`,
+	`package main
+func main(a, b uint) (uint, bool, uint8) {
+	c := a + b
+	d := (a ^ b) * 3
+	return c + d, a > b, uint8(c) & 15
+}`,
+}
+
 type pgStructTemplate struct {
 	src    string
 	inputs func(rng *rand.Rand) ([]string, []string)
